@@ -35,11 +35,12 @@ MANIFEST = {
             'the model of the rule cascade of ZTransformer.term returns (P,Q) with Q.X = P as power series in 1/z for every descriptor '
             '(zt_term_sound) and, by Coquelicot, P(w)/Q(w) is the value of the defining sum inside the radius of convergence (zt_analytic); '
             'DTFTs of finite and absolutely summable causal signals are compared with the same model on rational points of the unit circle. '
-            'Table entries are regenerated from ztransform.py/dft.py by a fail-closed ast translator on every run; the hand models are '
+            'Table entries (z-transform table and rules, DFT constant/impulse/n**p closed forms, sinusoid/exponential/a**n/n rules, repeated-pole '
+            'prefactors of the inverse z-transform) are regenerated from ztransform.py/dft.py/inverse_ztransform.py by a fail-closed ast translator on every run; the hand models are '
             'evaluated inside Coq (vm_compute over Qc and Qc[i]) against what the real code returned on generated inputs.',
     'note': 'Trusted: Coq kernel/vm_compute; tools/tr_ztable.py + statement templates in checks/c13.py; canonicalisation in tools/impl_dt.py '
             '(exact rationals / Q(zeta_M), never floats); sympy simplify/expand inside Lcapy modelled as identity (validated by the '
-            'correspondence). _partial: dft.py case table beyond impulse/constant/geometric/complex-exponential (correspondence + exact '
+            'correspondence). _partial: dft.py UnitStep/rect window index logic, Faulhaber special values, n**p for p > 3 and termXk (correspondence + exact '
             'cyclotomic oracle only); DTFT entries with Dirac combs / images (generalised functions) not modelled; analytic statement for real z only; advanced '
             'impulses/steps (negative delays) are transformed bilaterally by Lcapy (pinned by its own tests) and are outside the premise.',
     'technique': 'Coq proof (induction, formal power series, Coquelicot) over hand models + fail-closed ast translator for table entries + '
@@ -759,6 +760,19 @@ Section Obl.
 Variable K : fld.
 Add Field KFo : (fth K).
 Definition pq_eval (X : PQ K) (w : K) : K := evalw (fst X) w / evalw (snd X) w.
+Ltac np_tac A B p :=
+  let c := fresh "c" in let q := fresh "q" in let l := fresh "l" in let len := fresh "len" in let Hq := fresh "Hq" in
+  intros c q l len Hq;
+  assert (H1 : 1 - q <> 0) by (intros E; apply Hq; transitivity (1 - (1 - q)); [ring|rewrite E; ring]);
+  assert (Hp : pw (1 - q) (p + 1) <> 0) by (apply pw_nz; exact H1);
+  pose (T := fun u : nat => pw (1 - q) (p + 1) * pw (ofnat u) p);
+  assert (H0 : A K q l - q * B K q l = T l) by (unfold A, B, T; cbn [SeqFilter.pw Nat.add]; ring);
+  assert (Hs : forall u, B K q u - q * B K q (S u) = T (S u)) by (intros u; unfold B, T; rewrite ofnat_S; cbn [SeqFilter.pw Nat.add]; ring);
+  pose proof (tele_sum K q l (A K q l) (B K q) T H0 Hs len) as E;
+  unfold dft_np_q;
+  transitivity (c / pw (1 - q) (p + 1) * sumn (S len) (fun i => T (l + i)%nat * pw q (l + i)));
+  [ rewrite E; field; exact Hp
+  | rewrite <- sumn_scal; apply sumn_ext; intros i Hi; unfold T; field; exact Hp ].
 Ltac ev := unfold pq_eval; cbn [zt_np zt_geos zt_steps zt_base fst snd]; unfold one_minus_w;
   rewrite ?evalw_pshift; unfold evalw; cbn [fold_right SeqFilter.pw].
 '''
@@ -801,6 +815,13 @@ def gen_tables(zt, dt, it=None):
         'intros W N n0 k c H. unfold dft_delta_q, dft. rewrite (sumn_single K N _ n0 H). '
         '- destruct (Nat.eq_dec n0 n0); [|congruence]. rewrite pw_mul. reflexivity. '
         '- intros i Hi Hne. destruct (Nat.eq_dec i n0); [contradiction|ring].')
+    # n**p closed forms of termXq (p = 1, 2, 3): equal to the defining window sum  sum_{n=lower}^{upper} c n^p q^n
+    for pv in (1, 2, 3):
+        thm('gen_dft_np%d' % pv,
+            'forall (c q : K) (l len : nat), q <> 1 -> '
+            'dft_np_q c q (dft_np%(p)d_A q l) (dft_np%(p)d_B q (l + len)) l (l + len) %(p)d = '
+            'sumn (S len) (fun i => c * pw (ofnat (l + i)) %(p)d * pw q (l + i))' % {'p': pv},
+            'np_tac (@dft_np%d_A) (@dft_np%d_B) %d%%nat.' % (pv, pv, pv))
     # sinusoid branches of termXq: the copy carrying exp(+j b n) must be shifted to bin +k0, the other to bin N - k0
     out.append('Definition tone (W : K) (s : bool) (k0 n : nat) : K := if s then pw (1 / W) (k0 * n) else pw W (k0 * n).')
     out.append('Definition bin (N k0 : nat) (t : bool) : nat := if t then k0 else (N - k0)%nat.\n')
@@ -1021,7 +1042,7 @@ def coq_case(c, r, extra):
             if N not in (1, 2, 4) or c['Ms'][str(N)] != 4:
                 continue
             obs = r['vals'][str(N)]
-            if any(v is None for v in obs):
+            if any(v is None or v == 'singular' for v in obs):
                 continue
             C = get_cy(4)
             xs = [C.coeffs(sig_value(C, c['sig'], i, N, c['inverse'])) for i in range(N)]
@@ -1327,6 +1348,8 @@ def oracle(c, r):
                 obs = r['vals'][str(N)][kk]
                 if obs is None:
                     continue
+                if obs == 'singular':
+                    return False, 'N=%d index %d: the returned closed form is undefined (zoo/nan) at this index' % (N, kk)
                 ref = C.coeffs(dft_sum(C, xs, N, kk, c['inverse']))
                 if obs != ref:
                     return False, 'N=%d index %d: %s, defining sum %s' % (N, kk, obs, ref)
@@ -1439,10 +1462,33 @@ def fingerprint(c, r):
     if k == 'ztrt':
         return ['ZT+IZT round trip:' + '+'.join(sorted(set(term_class(d) for d in dec_terms(c['terms']))))]
     if k in ('exprdft', 'expridft'):
+        sing = singular_mirror(c, r)
+        if sing:
+            return [sing]
         return ['DFTTransformer.term:' + '+'.join(sorted(set(t[0] for t in c['sig']))) + (':inverse' if c['inverse'] else '')]
     return ['%s' % {'response': 'DLTIFilter.response', 'tf': 'DLTIFilter.transfer_function', 'de': 'DLTIFilter.difference_equation',
                     'impulse': 'DLTIFilter.impulse_response', 'fromtf': 'DLTIFilter.from_transfer_function',
                     'invtf': 'DLTIFilter.inverse', 'detf': 'DifferenceEquation.transfer_function', 'zde': 'ZDomainExpression.difference_equation', 'asab': 'ZDomainExpression.as_ab', 'izt': 'InverseZTransformer.ratfun', 'step': 'DLTIFilter.step_response', 'seqdft': 'DiscreteTimeDomainSequence.DFT'}.get(k, k)]
+
+
+def singular_mirror(c, r):
+    """symbolic N, one polynomial-weighted on-bin sinusoid n^p cos/sin(2 pi m n/N + phi): the only undefined samples
+    are the mirror bins k = N - m, everything else equals the defining sum"""
+    if 'N' in c or c['inverse'] or len(c['sig']) != 1 or c['sig'][0][0] not in ('ncos', 'nsin') or 'vals' not in r:
+        return None
+    m = c['sig'][0][2]
+    hit = False
+    for N in c['Ns']:
+        for kk, v in enumerate(r['vals'][str(N)]):
+            if v == 'singular':
+                if kk != N - m:
+                    return None
+                hit = True
+    if not hit:
+        return None
+    r2 = dict(r, vals=dict((N_, [None if v == 'singular' else v for v in vs]) for N_, vs in r['vals'].items()))
+    ok_, _ = oracle(c, r2)
+    return 'QkTransform.make_transform:symbolic-N-mirror-bin' if ok_ else None
 
 
 def term_class(d):
@@ -1688,6 +1734,9 @@ def run(tier='quick', replay=None):
                     return ['@explained']
             if c['kind'] in ('exprdft', 'expridft'):
                 cl = dft_classes(c)
+                sing = singular_mirror(c, ce['lcapy'])
+                if sing:
+                    return [sing]
                 if len(cl) == 1:
                     return ['DFTTransformer.term:' + cl[0]]
                 if any(x in dft_min for x in cl):
